@@ -197,7 +197,10 @@ def ev(v: Any, sv: Any, depth: int = 2) -> Any:
     from pyvc.dsl import current
     ctx = current()
     ex, st = ctx.ex, ctx.st
-    _touch_rec(ex, st, sv, depth)
+    if isinstance(sv, VInt):          # raw address (element of a not-yet-typed list, or a bound variable)
+        return VInt(EV(v.term, sv.term))
+    if depth >= 0:
+        _touch_rec(ex, st, sv, depth)
     term = sv.term if isinstance(sv, VRef) else ex.term_of_refu(sv)
     return VInt(EV(v.term, term))
 
